@@ -36,6 +36,163 @@ type PmOp struct {
 type PmScn struct {
 	Ops   []PmOp   `json:"ops"`
 	Sched SchedCfg `json:"sched"`
+	// concurrent class: Mut is one loopback client issuing SET/UNSET, Readers are clients issuing DUMP and
+	// GETPORT/GETADDR at the same time under the seeded scheduler
+	Mut     []PmOp   `json:"mut,omitempty"`
+	Readers [][]PmOp `json:"readers,omitempty"`
+}
+
+// pmState is one state the registry held: possibly visible from the call of the mutation that made it
+// until the return of the next mutation.
+type pmState struct {
+	from, to int64 // scheduler stamps (to = 0: still current)
+	m        map[pmKey]uint32
+}
+
+func pmDecodeDump(vers uint32, v any) map[pmKey]uint32 {
+	got := map[pmKey]uint32{}
+	if vers == 2 {
+		for _, m := range v.([]nfsclient.Mapping) {
+			got[pmKey{m.Prog, m.Vers, m.Prot}] = m.Port
+		}
+		return got
+	}
+	for _, e := range v.([]nfsclient.RpcbEntry) {
+		p := uint32(6)
+		if e.Netid == "udp" || e.Netid == "udp6" {
+			p = 17
+		}
+		parts := strings.Split(e.Addr, ".")
+		var hi, lo uint32
+		if len(parts) >= 2 {
+			fmt.Sscanf(parts[len(parts)-2], "%d", &hi)
+			fmt.Sscanf(parts[len(parts)-1], "%d", &lo)
+		}
+		got[pmKey{e.Prog, e.Vers, p}] = hi*256 + lo
+	}
+	return got
+}
+
+// runPortmapConcurrent: every DUMP reply must be a set of mappings the registry held at some instant
+// between the call and its reply (never a mixture of two states, an entry twice, or an entry dropped).
+func runPortmapConcurrent(o *Outcome, sc *PmScn, pm *absnfs.Portmapper, w *World, port int) {
+	o.NonTrivial = len(sc.Mut) > 0 && len(sc.Readers) > 0
+	snap := func() map[pmKey]uint32 {
+		out := map[pmKey]uint32{}
+		for _, m := range pm.GetMappings() {
+			out[pmKey{m.Program, m.Version, m.Protocol}] = m.Port
+		}
+		return out
+	}
+	states := []pmState{{from: 0, m: snap()}}
+	type dump struct {
+		inv, ret int64
+		vers     uint32
+		got      map[pmKey]uint32
+		raw      int // number of entries on the wire (duplicates included)
+		who      string
+	}
+	nr := len(sc.Readers)
+	dumps := make([][]dump, nr)
+	done := make(chan int, nr+1)
+	simrt.Go("pm-mutator", func() {
+		defer simrt.Send("pm.done", done, -1)
+		cl, err := w.DialPort(port, pmAddrs[0], Cred{}, nil)
+		if err != nil {
+			return
+		}
+		defer cl.Close()
+		for _, op := range sc.Mut {
+			args := nfsclient.ArgsMapping(nfsclient.Mapping{Prog: op.Prog, Vers: op.PVers, Prot: op.Prot, Port: op.Port})
+			inv := simrt.Stamp()
+			if _, err := cl.RawCall(nfsclient.ProgPortmap, 2, op.Proc, args); err != nil {
+				return
+			}
+			ret := simrt.Stamp()
+			// only this task changes the registry: what it holds now is the state after this mutation
+			states[len(states)-1].to = ret
+			states = append(states, pmState{from: inv, m: snap()})
+		}
+	})
+	for ri := range sc.Readers {
+		ri := ri
+		simrt.Go(fmt.Sprintf("pm-reader-%d", ri), func() {
+			defer simrt.Send("pm.done", done, ri)
+			addr := pmAddrs[(1+ri)%len(pmAddrs)]
+			cl, err := w.DialPort(port, addr, Cred{}, &simrt.ConnFaults{Segment: ri%2 == 0})
+			if err != nil {
+				return
+			}
+			defer cl.Close()
+			for _, op := range sc.Readers[ri] {
+				var args []byte
+				if op.Proc != 4 {
+					if op.Vers == 2 {
+						args = nfsclient.ArgsMapping(nfsclient.Mapping{Prog: op.Prog, Vers: op.PVers, Prot: op.Prot})
+					} else {
+						args = nfsclient.ArgsRpcb(nfsclient.RpcbEntry{Prog: op.Prog, Vers: op.PVers, Netid: "tcp", Owner: "sim"})
+					}
+				}
+				inv := simrt.Stamp()
+				rep, err := cl.RawCall(nfsclient.ProgPortmap, op.Vers, op.Proc, args)
+				ret := simrt.Stamp()
+				if err != nil {
+					if _, dead := err.(*ErrNoReply); dead {
+						o.Vio("C27.no-reply", fmt.Sprintf("vers=%d,proc=%d,concurrent", op.Vers, op.Proc), "reader %d: %v", ri, err)
+					}
+					return
+				}
+				o.Tick()
+				if rep.Stat != nfsclient.MsgAccepted || rep.AcceptStat != nfsclient.Success {
+					o.Vio("C27.not-accepted", fmt.Sprintf("vers=%d,proc=%d,concurrent", op.Vers, op.Proc), "reader %d: stat=%d accept=%d", ri, rep.Stat, rep.AcceptStat)
+					continue
+				}
+				v, derr := nfsclient.DecodePortmap(op.Vers, op.Proc, rep.Results)
+				if derr != nil {
+					o.Vio("C27.result-malformed", fmt.Sprintf("vers=%d,proc=%d,concurrent", op.Vers, op.Proc), "reader %d: result does not decode: %v", ri, derr)
+					continue
+				}
+				if op.Proc == 4 {
+					raw := 0
+					if op.Vers == 2 {
+						raw = len(v.([]nfsclient.Mapping))
+					} else {
+						raw = len(v.([]nfsclient.RpcbEntry))
+					}
+					dumps[ri] = append(dumps[ri], dump{inv, ret, op.Vers, pmDecodeDump(op.Vers, v), raw, fmt.Sprintf("reader %d v%d", ri, op.Vers)})
+				}
+			}
+		})
+	}
+	for i := 0; i < nr+1; i++ {
+		simrt.Recv("pm.wait", done)
+	}
+	same := func(a, b map[pmKey]uint32) bool {
+		if len(a) != len(b) {
+			return false
+		}
+		for k, v := range a {
+			if b[k] != v {
+				return false
+			}
+		}
+		return true
+	}
+	for _, ds := range dumps {
+		for _, d := range ds {
+			o.Tick()
+			ok := false
+			for _, st := range states {
+				if st.from <= d.ret && (st.to == 0 || st.to >= d.inv) && same(st.m, d.got) && d.raw == len(st.m) {
+					ok = true
+					break
+				}
+			}
+			if !ok {
+				o.Vio("C27.dump-of-no-state", fmt.Sprintf("vers=%d", d.vers), "%s: DUMP returned %d entries %v while SET/UNSET calls were running; the registry held no such set of mappings at any instant between the call and its reply (an entry twice, an entry dropped, or a mixture of two states)", d.who, d.raw, pmKeys(d.got))
+			}
+		}
+	}
 }
 
 var pmAddrs = []string{"127.0.0.1:700", "[::1]:701", "10.1.2.3:702", "192.168.0.9:1023", "[2001:db8::5]:703", "[::ffff:127.0.0.1]:704", "127.9.9.9:60000", "[::ffff:10.0.0.1]:705"}
@@ -67,6 +224,10 @@ func runPortmap(t *testing.T, scAny any, trace bool) *Outcome {
 		}
 		defer pm.Stop()
 		w := NewWorld(o)
+		if len(sc.Mut) > 0 {
+			runPortmapConcurrent(o, sc, pm, w, port)
+			return
+		}
 		model := map[pmKey]uint32{}
 		for _, v := range []uint32{2, 3, 4} {
 			model[pmKey{100000, v, 6}] = port
@@ -271,6 +432,24 @@ func pmKeys(m map[pmKey]uint32) []string {
 }
 
 func genC27(r *simrt.Rand, tier string) any {
+	if r.Pct(20) {
+		// concurrent class: one loopback client registers and unregisters a few services while 1-3 other
+		// clients dump the registry
+		sc := &PmScn{Sched: RandSched(r)}
+		sc.Sched.HorizonS = 600
+		progs := []uint32{100003, 100005, 100021}
+		for i, n := 0, 4+r.Int(8); i < n; i++ {
+			sc.Mut = append(sc.Mut, PmOp{Vers: 2, Proc: uint32(1 + r.Int(2)), Prog: progs[r.Int(3)], PVers: uint32(1 + r.Int(3)), Prot: []uint32{6, 17}[r.Int(2)], Port: uint32(1 + r.Int(65535))})
+		}
+		for rd, nrd := 0, 1+r.Int(3); rd < nrd; rd++ {
+			var ops []PmOp
+			for i, n := 0, 2+r.Int(6); i < n; i++ {
+				ops = append(ops, PmOp{Vers: []uint32{2, 3, 4}[r.Int(3)], Proc: []uint32{4, 4, 4, 3}[r.Int(4)], Prog: progs[r.Int(3)], PVers: uint32(1 + r.Int(3)), Prot: 6})
+			}
+			sc.Readers = append(sc.Readers, ops)
+		}
+		return sc
+	}
 	sc := &PmScn{Sched: SeqSched(r.Uint64())}
 	if r.Pct(30) {
 		sc.Sched = RandSched(r)
@@ -309,6 +488,26 @@ func genC27(r *simrt.Rand, tier string) any {
 func shrinkPm(scAny any) []any {
 	sc := scAny.(*PmScn)
 	var out []any
+	for i := range sc.Mut {
+		c := *sc
+		c.Mut = append(append([]PmOp(nil), sc.Mut[:i]...), sc.Mut[i+1:]...)
+		if len(c.Mut) > 0 {
+			out = append(out, &c)
+		}
+	}
+	for ri := range sc.Readers {
+		if len(sc.Readers) > 1 {
+			c := *sc
+			c.Readers = append(append([][]PmOp(nil), sc.Readers[:ri]...), sc.Readers[ri+1:]...)
+			out = append(out, &c)
+		}
+		for j := range sc.Readers[ri] {
+			c := *sc
+			c.Readers = append([][]PmOp(nil), sc.Readers...)
+			c.Readers[ri] = append(append([]PmOp(nil), sc.Readers[ri][:j]...), sc.Readers[ri][j+1:]...)
+			out = append(out, &c)
+		}
+	}
 	n := len(sc.Ops)
 	for chunk := n / 2; chunk >= 1; chunk /= 2 {
 		for start := 0; start+chunk <= n; start += chunk {
@@ -882,7 +1081,7 @@ func (zeroReader) Read(p []byte) (int, error) {
 
 func init() {
 	Register(&Prop{ID: "C27", Level: "exploration",
-		Rule: "one case = 5-30 portmap v2 / rpcbind v3,v4 calls (NULL, SET, UNSET, GETPORT/GETADDR, DUMP, unknown versions, unknown procedures, foreign program numbers) from 8 client addresses (IPv4/IPv6 loopback, IPv4-mapped, private and global addresses) over the simulated network against a Portmapper started through its listen seam, transport segmentation on alternate connections, sequential or (30%) under the random scheduler; oracle: every reply strictly decodes (RFC 1831 + RFC 1833 result types), GETPORT/GETADDR/DUMP equal a map model of (prog,vers,prot)->port, SET/UNSET from loopback update it, and the registry (read through GetMappings before and after every call) never changes for a non-loopback client in any protocol version; non-trivial = at least one call; distinct by event digest",
+		Rule: "one case = 5-30 portmap v2 / rpcbind v3,v4 calls (NULL, SET, UNSET, GETPORT/GETADDR, DUMP, unknown versions, unknown procedures, foreign program numbers) from 8 client addresses (IPv4/IPv6 loopback, IPv4-mapped, private and global addresses) over the simulated network against a Portmapper started through its listen seam, transport segmentation on alternate connections, sequential or (30%) under the random scheduler, or (20% of cases) concurrently: one loopback client issues 4-11 SET/UNSET calls while 1-3 other clients issue DUMP (v2, v3, v4) and GETPORT/GETADDR calls under the seeded scheduler - every DUMP reply must then be a set of mappings the registry held at some instant between the call and its reply; oracle: every reply strictly decodes (RFC 1831 + RFC 1833 result types), GETPORT/GETADDR/DUMP equal a map model of (prog,vers,prot)->port, SET/UNSET from loopback update it, and the registry (read through GetMappings before and after every call) never changes for a non-loopback client in any protocol version; non-trivial = at least one call; distinct by event digest",
 		Gen:  genC27, New: func() any { return &PmScn{} }, Run: runPortmap, Shrink: shrinkPm,
 		Real:    []string{"Portmapper (StartOnPort, accept loop, connection handler, handleCall, all v2/v3/v4 procedures, Stop)", "record marking"},
 		Stubbed: []string{"kernel TCP (simnet)", "clock", "scheduler", "sync primitives"}})
